@@ -319,7 +319,7 @@ func corpusScripts(c *Check, modules []string, everyDefault int) []string {
 		}
 		n = 0
 		inv := "Export"
-		cfg := fmt.Sprintf("SPECIFICATION Spec\nCONSTANT Tier = \"%s\"\nINVARIANT %s\nCHECK_DEADLOCK FALSE\n", c.Tier, inv)
+		cfg := fmt.Sprintf("SPECIFICATION Spec\nCONSTANT Tier = \"%s\"\nCONSTANT Seed = %d\nINVARIANT %s\nCHECK_DEADLOCK FALSE\n", c.Tier, specSeed(), inv)
 		res, err := runTLC(tlcOpts{Module: mod, Cfg: cfg, Timeout: 20 * time.Minute, OnRow: func(raw json.RawMessage) {
 			var row Row
 			if json.Unmarshal(raw, &row) != nil {
